@@ -265,7 +265,15 @@ func (eng *Engine) checkProperty(id, tier string, timeoutFlag, workers int, keep
 	var knownHit []Finding
 	var unclaimedHit []string
 	var engineErrs []string
-	engineErrs = append(engineErrs, terrs...)
+	var missingFns []string
+	for _, te := range terrs {
+		if strings.HasPrefix(te, "target function ") {
+			// a function named by a contract target is gone from the source tree: its contract cannot be discharged
+			missingFns = append(missingFns, te)
+			continue
+		}
+		engineErrs = append(engineErrs, te)
+	}
 	nObl, nDis := 0, 0
 	byKind := map[string]int{}
 	byBackend := map[string]int{}
@@ -275,8 +283,22 @@ func (eng *Engine) checkProperty(id, tier string, timeoutFlag, workers int, keep
 		t    float64
 	}
 	var slow []slowT
+	var contractViols []*violation
+	for _, m := range missingFns {
+		o := &Obl{name: strings.TrimSuffix(strings.TrimPrefix(m, "target function \""), "\" not found in the source tree") + ":contract-applies", kind: "contract-applies", text: m}
+		o.fn = strings.TrimSuffix(o.name, ":contract-applies")
+		contractViols = append(contractViols, &violation{res: &OblResult{Obl: o, Status: "failed", Solver: "none", Answer: m}})
+	}
 	for _, fr := range run.fnRes {
 		if fr.Err != "" {
+			if strings.HasPrefix(fr.Err, "contract error:") {
+				// the contract no longer applies to the function's code (a name it mentions, a loop it annotates or the
+				// function itself is gone): every obligation it generated on the unchanged tree is undischarged now. Reported
+				// as the failed obligation <fn>:contract-applies (no counterexample exists for it).
+				o := &Obl{name: fr.Fn + ":contract-applies", kind: "contract-applies", fn: fr.Fn, text: fr.Err}
+				contractViols = append(contractViols, &violation{res: &OblResult{Obl: o, Status: "failed", Solver: "none", Answer: fr.Err}})
+				continue
+			}
 			engineErrs = append(engineErrs, fmt.Sprintf("%s: %s", fr.Fn, fr.Err))
 		}
 	}
@@ -339,6 +361,8 @@ func (eng *Engine) checkProperty(id, tier string, timeoutFlag, workers int, keep
 		}
 		viols = append(viols, &violation{res: r})
 	}
+	viols = append(viols, contractViols...)
+	nObl += len(contractViols)
 	if os.Getenv("VERIF_WRITE_UNCLAIMED") != "" {
 		// maintenance mode: record every currently failing obligation of this property as unclaimed (reason to be edited)
 		var rest []Unclaimed
